@@ -194,6 +194,12 @@ func (l *fpList) String() string {
 // newG4EndpointQ is newG4Endpoint with an explicit receive-queue size (0 = default).
 func newG4EndpointQ(conn *g4Conn, role protocol.ProtocolRole, sm protocol.StateMap, initial protocol.State,
 	handler protocol.MessageHandlerFunc, name string, recvQ int) *g4Endpoint {
+	return newG4EndpointF(conn, role, sm, initial, handler, name, recvQ, g4MsgFromCbor)
+}
+
+// newG4EndpointF additionally takes the message-from-CBOR function (e.g. a real protocol's).
+func newG4EndpointF(conn *g4Conn, role protocol.ProtocolRole, sm protocol.StateMap, initial protocol.State,
+	handler protocol.MessageHandlerFunc, name string, recvQ int, fromCbor protocol.MessageFromCborFunc) *g4Endpoint {
 	e := &g4Endpoint{conn: conn, errCh: make(chan error, 10)}
 	e.mux = muxer.New(conn)
 	e.proto = protocol.New(protocol.ProtocolConfig{
@@ -204,7 +210,7 @@ func newG4EndpointQ(conn *g4Conn, role protocol.ProtocolRole, sm protocol.StateM
 		Mode:                protocol.ProtocolModeNodeToNode,
 		Role:                role,
 		MessageHandlerFunc:  handler,
-		MessageFromCborFunc: g4MsgFromCbor,
+		MessageFromCborFunc: fromCbor,
 		StateMap:            sm,
 		InitialState:        initial,
 		RecvQueueSize:       recvQ,
